@@ -172,6 +172,8 @@ def skeleton(src, q):
         hc[str(a)] = cfg
         exp['hosts'][a] = dict(os=hos, services=hsrv, processes=hprc, deny=deny,
                                value=value if value is not None else 0)
+    if q.get('host_order') == 'reversed':
+        hc = {k: hc[k] for k in reversed(list(hc))}      # a YAML mapping has no prescribed order
     doc[u.HOST_CONFIGS] = hc
     # subnet firewall: every connected ordered pair
     fw = {}
@@ -338,7 +340,8 @@ def scenario_obligations(sc, exp):
     fw = sc.firewall
     obl.append(('subnet_firewall', z3.BoolVal(set(fw.keys()) == set(exp['fw'].keys()) and
                                               all(list(fw[k]) == exp['fw'][k] for k in exp['fw'] if k in fw))))
-    obl.append(('host_addresses', z3.BoolVal(list(sc.hosts.keys()) == exp['addrs'])))
+    obl.append(('host_addresses', z3.BoolVal(sorted(sc.hosts.keys()) == sorted(exp['addrs']) and
+                                             len(sc.hosts) == len(exp['addrs']))))
     for a, d in exp['hosts'].items():
         h = sc.hosts.get(a)
         if h is None:
